@@ -64,3 +64,8 @@ claim("C02", "model_checking",
       "Every world runs the real sockets end to end; the frames handed to the application, cut at frames without MORE, must be exactly the sent messages (whole, contiguous, in order, correctly flagged), over-long messages must be refused with an error or close the connection, and no task may panic — including when another peer attaches or detaches while a message is half read.",
       "deterministic single-thread worlds (attach/detach land between API calls, at quiescence points); ZMTP path over in-memory duplex streams; frames are 0..256 bytes",
       "5/C02")
+claim("C14", "model_checking",
+      "E3: exhaustive enumeration of (socket pair x transport x HWM x SNDTIMEO) and (socket type x RCVTIMEO x call x connected) cells in deterministic virtual-time worlds on the whole real stack; differential HWM bound across cells",
+      "For each cell the real sender sends 1000-byte messages to a peer that does not read until a send is refused or is still pending after one virtual hour; the refusal kind and exact virtual elapsed time must match SNDTIMEO (0: immediate would-block; t>0: timeout/would-block within [t, t+100 ms]; -1: waits, and completes once the peer reads), the peer must then receive exactly the accepted messages in order, and the number accepted before the first refusal may exceed 2*SNDHWM+RCVHWM only by the same constant at every HWM. RCVTIMEO likewise on an empty socket.",
+      "virtual tokio clock (exact); HWM in {1,2,8,64(,1000)}, timeouts in {-1,0,1,50,500 ms}; 'peer never reads' = idle peer application or stalled in-memory network; REQ/REP/PUB senders are covered by C10/C12 scenarios rather than here",
+      "5/C14")
